@@ -181,9 +181,56 @@ fn cyclic_graphs(ctx: &mut Ctx) {
     }
 }
 
+/// one call site, several receivers in turn: every ordered pair and triple of 7 receivers (own method,
+/// same method with the fields laid out differently, inherited, integer-ended chain without the method,
+/// different arity, override, operator/get members) through 5 kinds of site (method call, field read,
+/// operator, index, field update), the site living in a function and in a loop body. What an earlier
+/// receiver did at the site cannot matter to the next one.
+fn polymorphic_sites(ctx: &mut Ctx) {
+    ctx.stage("U-OBJ polymorphic call sites (pairs and triples of receivers)");
+    let receivers = || vec![
+        let_("r0", object(None, vec![field("v", int(1)), method("m", &[], int(10))])),
+        let_("r1", object(None, vec![field("w", int(0)), field("v", int(2)), method("m", &[], int(20))])),
+        let_("r2", object(Some(var("r0")), vec![])),
+        let_("r3", object(Some(int(5)), vec![field("v", int(3))])),
+        let_("r4", object(None, vec![method("m", &["k"], int(30)), field("v", int(4))])),
+        let_("r5", object(Some(var("r1")), vec![method("m", &[], int(50))])),
+        let_("r6", object(None, vec![method("+", &["k"], int(60)), method("get", &["i"], int(61)), field("v", int(6)), method("m", &[], fget(var("this"), "v"))])),
+    ];
+    let sites: Vec<E> = vec![
+        mcall(var("o"), "m", vec![]), fget(var("o"), "v"), binop("+", var("o"), int(1)), idx(var("o"), int(0)),
+        fset(var("o"), "v", binop("+", fget(var("o"), "v"), int(100))),
+    ];
+    let n = 7usize;
+    let mut seqs: Vec<Vec<usize>> = vec![];
+    for a in 0..n { for b in 0..n { seqs.push(vec![a, b]); for c in 0..n { seqs.push(vec![a, b, c]) } } }
+    for seq in &seqs {
+        for site in &sites {
+            for in_loop in [false, true] {
+                if ctx.take().is_none() { continue }
+                let mut p = receivers();
+                if in_loop {
+                    p.push(let_("rs", array(int(seq.len() as i32), E::Null)));
+                    for (i, r) in seq.iter().enumerate() { p.push(idxset(var("rs"), int(i as i32), var(&format!("r{}", r)))) }
+                    p.push(let_("i", int(0)));
+                    p.push(while_(binop("<", var("i"), int(seq.len() as i32)), block(vec![
+                        let_("o", idx(var("rs"), var("i"))), print("~;", vec![site.clone()]), set("i", binop("+", var("i"), int(1)))])));
+                } else {
+                    p.push(fun("site", &["o"], site.clone()));
+                    for r in seq { p.push(print("~;", vec![call("site", vec![var(&format!("r{}", r))])])) }
+                }
+                p.push(print("|~ ~ ~\\n", vec![fget(var("r0"), "v"), fget(var("r1"), "v"), fget(var("r6"), "v")]));
+                semantic_case(ctx, "U-OBJ/site", &p);
+                ctx.count("programs", 1);
+            }
+        }
+    }
+}
+
 pub fn run(ctx: &mut Ctx) {
     let d = if ctx.quick() { 4 } else { 5 };
     aliasing(ctx);
     cyclic_graphs(ctx);
+    polymorphic_sites(ctx);
     chains(ctx, d);
 }
